@@ -33,7 +33,7 @@ func init() {
 			"the root data node is named 'data' for ToXML and compared below the root; JSON decoding yields container children in map order (compared as a set)",
 			"a JSON number in exponent or '1.0' form for an integer leaf is not asserted either way",
 		},
-		minEvents: []string{"trees_encoded", "round_trips_compared", "fuzz_inputs", "fuzz_inputs_decoded_to_a_tree", "scalar_substitutions", "values_above_2_53"},
+		minEvents: []string{"trees_encoded", "round_trips_compared", "fuzz_inputs", "fuzz_inputs_decoded_to_a_tree", "scalar_substitutions", "values_above_2_53", "deep_nesting_inputs"},
 	}})
 }
 
@@ -322,6 +322,24 @@ func (p *c19) Run(tier string, seed int64, idx int) core.CaseResult {
 		"<data><c18 xmlns=\"urn:verif:m18\"></c18></data>", "<a><b></a>", "{\"m18:c18\":{\"nosuch\":1}}"} {
 		for _, enc := range []encoding.EncType{encoding.RFC7951, encoding.JSON, encoding.XML} {
 			fuzzOne(enc, []byte(s), "fixed hostile")
+		}
+	}
+	// nesting far beyond anything a decoder may recurse into (once per run: 10 MB per document)
+	if idx == 0 {
+		for oi, open := range []string{"[", "{\"a\":", "<a>"} {
+			closer := []string{"]", "}", "</a>"}[oi]
+			// a well-formed document: the nesting is closed again
+			deep := strings.Repeat(open, 5000000) + []string{"", "1", ""}[oi] + strings.Repeat(closer, 5000000)
+			for _, enc := range []encoding.EncType{encoding.RFC7951, encoding.JSON, encoding.XML} {
+				res.Ev("fuzz_inputs", 1)
+				res.Ev("deep_nesting_inputs", 1)
+				tree, err, pmsg, stack := c19Decode(ms, enc, []byte(deep), true)
+				if pmsg != "" {
+					res.Fail("C19/decode-panic/"+encNames[enc]+"/"+core.TopRepoFrame(stack), "5,000,000 x "+open+" for the "+encNames[enc]+" decoder", pmsg)
+				} else if err == nil && tree != nil {
+					res.Fail("C19/decoded-tree-does-not-conform/"+encNames[enc], "5,000,000 x "+open, "a document that is nothing but nesting decoded to a tree")
+				}
+			}
 		}
 	}
 	// list keys of the wrong JSON kind
